@@ -152,11 +152,12 @@ class Pmono(Pbind):
                     event = evt.event(inevent, type='_mono_on')
                     event.update(self._stream_dict_next(stream_dict))
                     event._prepare_event(instrument)
-                    server = event['server']
-                    node_id = event['node_id']
-                    mono_params = event['msg_params'][::2]  # For _update_msg_params
-                    cleanup.add_event(evt.event(
-                        {k: event[k] for k in kept_keys}, type='_mono_off'))
+                    if not evt.is_rest(event):  # No synth is created.
+                        server = event['server']
+                        node_id = event['node_id']
+                        mono_params = event['msg_params'][::2]  # For _update_msg_params
+                        cleanup.add_event(evt.event(
+                            {k: event[k] for k in kept_keys}, type='_mono_off'))
                     inevent = yield event
                 else:
                     event = evt.event(inevent, type='_mono_set')
